@@ -123,13 +123,53 @@ static void do_create(int k, op_t *o){
 }
 
 static int cur_body(void){ int i; myth_thread_t me_ = myth_self(); for (i = 0; i < MAXB; i++) if (self_of[i] == me_) return i; return 0; }
+/* ---- C03 probe: run one operation with recognisable values in every callee-saved register and in a
+   stack array, and compare afterwards (the operation may suspend the thread and resume it on another worker) */
+static int exec_op(int k, op_t *o, long *ret);
+typedef struct { int k; op_t *o; long ret; int fin; } pctx_t;
+static void probe_thunk(void *p){ pctx_t *c = p; c->fin = exec_op(c->k, c->o, &c->ret); }
+long verif_probe_call(void (*fn)(void *), void *arg, unsigned long pat);   /* mask of registers found changed */
+__asm__(
+  ".text\n.globl verif_probe_call\n.type verif_probe_call,@function\n"
+  "verif_probe_call:\n"
+  "  push %rbp\n  push %rbx\n  push %r12\n  push %r13\n  push %r14\n  push %r15\n  push %rdx\n"   /* 7 words + return address: rsp is 16-byte aligned */
+  "  lea 1(%rdx),%rbx\n  lea 2(%rdx),%rbp\n  lea 3(%rdx),%r12\n  lea 4(%rdx),%r13\n  lea 5(%rdx),%r14\n  lea 6(%rdx),%r15\n"
+  "  mov %rdi,%rax\n  mov %rsi,%rdi\n  call *%rax\n"
+  "  mov (%rsp),%rdx\n  xor %eax,%eax\n"
+  "  lea 1(%rdx),%rcx\n  cmp %rcx,%rbx\n  je 1f\n  or $1,%eax\n1:\n"
+  "  lea 2(%rdx),%rcx\n  cmp %rcx,%rbp\n  je 2f\n  or $2,%eax\n2:\n"
+  "  lea 3(%rdx),%rcx\n  cmp %rcx,%r12\n  je 3f\n  or $4,%eax\n3:\n"
+  "  lea 4(%rdx),%rcx\n  cmp %rcx,%r13\n  je 4f\n  or $8,%eax\n4:\n"
+  "  lea 5(%rdx),%rcx\n  cmp %rcx,%r14\n  je 5f\n  or $16,%eax\n5:\n"
+  "  lea 6(%rdx),%rcx\n  cmp %rcx,%r15\n  je 6f\n  or $32,%eax\n6:\n"
+  "  pop %rdx\n  pop %r15\n  pop %r14\n  pop %r13\n  pop %r12\n  pop %rbx\n  pop %rbp\n  ret\n"
+  ".size verif_probe_call,.-verif_probe_call\n");
+static __attribute__((noinline)) int probed_op(int k, op_t *o, long *ret, unsigned long pat){
+  volatile unsigned long arr[160]; pctx_t c; long mask; int i, sbad = 0;
+  for (i = 0; i < 160; i++) arr[i] = pat * 31 + (unsigned long)i * 0x9e3779b97f4a7c15UL;
+  c.k = k; c.o = o; c.ret = 0; c.fin = 0;
+  mask = verif_probe_call(probe_thunk, &c, pat);
+  for (i = 0; i < 160; i++) if (arr[i] != pat * 31 + (unsigned long)i * 0x9e3779b97f4a7c15UL) sbad++;
+  U("U_Probe", 4, (long)k, (long)o->op, mask, (long)sbad);
+  *ret = c.ret; return c.fin;
+}
 static long run_ops(int k){
-  body_t *b = &bodies[k]; int i;
+  body_t *b = &bodies[k]; int i; long ret = 0;
   { int j_; myth_thread_t me_ = myth_self(); for (j_ = 0; j_ < MAXB; j_++) if (self_of[j_] == me_) self_of[j_] = 0; self_of[k] = me_; }
   for (i = 0; i < b->n; i++){
     op_t *o = &b->ops[i];
+    if (o->op == OP_PROBE && i + 1 < b->n){        /* a = pattern: the next operation runs under the probe */
+      i++;
+      if (probed_op(k, &b->ops[i], &ret, 0x5eed000000000000UL + ((unsigned long)k << 32) + (unsigned long)o->a * 1000003UL)) return ret;
+      continue;
+    }
+    if (exec_op(k, o, &ret)) return ret;
+  }
+  return 1000 + k;
+}
+static int exec_op(int k, op_t *o, long *ret){
     switch (o->op){
-    case OP_END: return 1000 + k;
+    case OP_END: *ret = 1000 + k; return 1;
     case OP_CR: do_create(k, o); break;
     case OP_JN: { void *r = 0; U("U_JoinCall", 2, (long)k, (long)o->a);
       myth_join(handle[o->a], &r); self_of[o->a] = 0;
@@ -151,7 +191,7 @@ static long run_ops(int k){
     case OP_DT: U("U_DetachCall", 2, (long)k, (long)o->a); myth_detach(handle[o->a]); U("U_DetachRet", 2, (long)k, (long)o->a); break;
     case OP_YD: U("U_YieldCall", 2, (long)k, (long)o->a); myth_yield_ex(o->a); U("U_YieldRet", 1, (long)k); break;
     case OP_EX: nested_exit(k, (long)o->a, 3); break;
-    case OP_RET: return (long)o->a;
+    case OP_RET: *ret = (long)o->a; return 1;
     case OP_SETV: vars[o->a] = o->b; break;
     case OP_LK: lock_(k, o->a); break;
     case OP_UL: unlock_(k, o->a); break;
@@ -250,10 +290,10 @@ static long run_ops(int k){
       myth_felock_mark_and_signal(&fes[o->a], o->b);
       U("U_FeMarkRet", 3, (long)k, FEID(o->a), (long)o->b); break;
     case OP_BUSY: { volatile int j; for (j = 0; j < o->a; j++) { } break; }
+    case OP_PROBE: break;
     default: fprintf(stderr, "mythprog: unknown op %d\n", o->op); exit(2);
     }
-  }
-  return 1000 + k;
+    return 0;
 }
 
 /* wait (yielding) until every other worker is idle and this worker's queue is empty, so
